@@ -568,6 +568,18 @@ func (a *Term) ToBiscuit(parameters ParametersMap) (biscuit.Term, error) {
 	return biscuitTerm, nil
 }
 
+// checkExpression reports operands that ToExpr could not convert: ToExpr has no
+// error result, so a term whose conversion failed (unbound parameter, malformed
+// date or hex literal) is left behind as a Value without a term.
+func checkExpression(expr biscuit.Expression) error {
+	for _, op := range expr {
+		if v, ok := op.(biscuit.Value); ok && v.Term == nil {
+			return errors.New("parser: invalid term in expression: unbound parameter or malformed literal")
+		}
+	}
+	return nil
+}
+
 func (r *Rule) ToBiscuit(parameters ParametersMap) (*biscuit.Rule, error) {
 	body := []biscuit.Predicate{}
 	expressions := make([]biscuit.Expression, 0)
@@ -586,6 +598,9 @@ func (r *Rule) ToBiscuit(parameters ParametersMap) (*biscuit.Rule, error) {
 			{
 				var expr biscuit.Expression
 				(*p.Expression).ToExpr(&expr, parameters)
+				if err := checkExpression(expr); err != nil {
+					return nil, err
+				}
 
 				expressions = append(expressions, expr)
 			}
@@ -638,6 +653,9 @@ func (r *CheckQuery) ToBiscuit(parameters ParametersMap) (*biscuit.Rule, error) 
 			{
 				var expr biscuit.Expression
 				(*p.Expression).ToExpr(&expr, parameters)
+				if err := checkExpression(expr); err != nil {
+					return nil, err
+				}
 
 				expressions = append(expressions, expr)
 			}
